@@ -418,6 +418,68 @@ fn check_case(c: &SeqCase, obs: &mut Obs) -> Verdict {
             return Verdict::Fail(format!("{}: failing at call {}: calls {:?} are not the first {} calls of the success log {:?}", name, k, r.events, k + 1, log));
         }
     }
+    // an adapter instance that went through an ABORTED diff (the hook failed at call k) is used for a
+    // second, successful diff: the hook sees exactly the calls of a fresh adapter
+    if stack == 1 && dl_of(c) == 0 && !log.is_empty() {
+        let k = log.len() / 2;
+        let r = guard(|| {
+            let alg = alg_of(c.alg);
+            // a hook that fails once at call k and records everything
+            struct FailOnce {
+                rec: Recorder,
+                fail_at: usize,
+                calls: usize,
+            }
+            impl FailOnce {
+                fn step(&mut self) -> bool {
+                    let c = self.calls;
+                    self.calls += 1;
+                    c == self.fail_at
+                }
+            }
+            impl DiffHook for FailOnce {
+                type Error = usize;
+                fn equal(&mut self, o: usize, n: usize, l: usize) -> Result<(), usize> {
+                    if self.step() { return Err(0); }
+                    self.rec.equal(o, n, l)
+                }
+                fn delete(&mut self, o: usize, l: usize, n: usize) -> Result<(), usize> {
+                    if self.step() { return Err(0); }
+                    self.rec.delete(o, l, n)
+                }
+                fn insert(&mut self, o: usize, n: usize, l: usize) -> Result<(), usize> {
+                    if self.step() { return Err(0); }
+                    self.rec.insert(o, n, l)
+                }
+                fn replace(&mut self, o: usize, ol: usize, n: usize, nl: usize) -> Result<(), usize> {
+                    if self.step() { return Err(0); }
+                    self.rec.replace(o, ol, n, nl)
+                }
+                fn finish(&mut self) -> Result<(), usize> {
+                    if self.step() { return Err(0); }
+                    self.rec.finish()
+                }
+            }
+            let mut h = Replace::new(FailOnce { rec: Recorder::new(), fail_at: k, calls: 0 });
+            let first = similar::algorithms::diff(alg, &mut h, &c.old[..], c.old_r(), &c.new[..], c.new_r());
+            let seen_first = h.as_ref().rec.events.len();
+            let second = similar::algorithms::diff(alg, &mut h, &c.old[..], c.old_r(), &c.new[..], c.new_r());
+            let all = h.into_inner().rec.events;
+            (first, second, all[seen_first..].to_vec())
+        });
+        execs += 2;
+        match r {
+            Ok((first, second, after)) => {
+                if first.is_ok() || second.is_err() || (overrides && after != log) {
+                    return Verdict::Fail(format!(
+                        "{}: a Replace adapter whose first diff was aborted by a hook error at call {} and that is then used for a second diff: first {:?}, second {:?}, calls of the second diff {:?}, a fresh adapter gives {:?}",
+                        name, k, first, second, after, log
+                    ));
+                }
+            }
+            Err(p) => return Verdict::Fail(format!("{}: adapter reused after an aborted diff: {}", name, p)),
+        }
+    }
     obs.executions = execs;
     let changes = log.iter().filter(|e| !matches!(e, Ev::Equal(..) | Ev::Finish)).count();
     obs.nontrivial = log.len() >= 3 && changes >= 1;
